@@ -28,6 +28,8 @@ const LEAVES: &[(&str, &str, &str, &str)] = &[
     ("l2.0", r#"["l2",0]"#, r#""e0""#, r#""e1""#),
     ("l2.1", r#"["l2",1]"#, r#""g0""#, "5"),
     ("om", r#"["om"]"#, r#"{"p":{"k":1,"v":"m0"},"q":{"k":2,"v":"m1"}}"#, r#"{"q":{"k":2,"v":"m1"},"r":{"k":1,"v":"m0"}}"#),
+    // (a field that is absent at first; integer-like, so it sorts before the other fields)
+    ("om.1", r#"["om","1"]"#, r#"{"k":3,"v":"m8"}"#, r#"{"k":3,"v":"m9"}"#),
     ("list", r#"["list"]"#, r#"[{"k":1,"v":"v0","w":"u0","sub":[{"k":11,"v":"s0"}]},{"k":2,"v":"w0","w":"u1","sub":[{"k":21,"v":"t0"}]}]"#, r#"[{"k":2,"v":"w0","w":"u1","sub":[{"k":21,"v":"t0"}]},{"k":3,"v":"n0","w":"u2","sub":[]},{"k":1,"v":"v0","w":"u0","sub":[{"k":11,"v":"s0"}]}]"#),
     ("ll.0.0", r#"["ll",0,0]"#, r#""h0""#, r#""h9""#),
     ("ll.0.1", r#"["ll",0,1]"#, r#""h1""#, "8"),
@@ -96,6 +98,7 @@ const EXPRS: &[(&str, &[&str], char)] = &[
     ("m.wrap(a, l2).q", &["a", "l2.0", "l2.1"], 'l'),
     ("ll[n]", &["ll.0.0", "ll.0.1", "ll.1.0", "n"], 'l'),
     ("om", &["om"], 'l'),
+    ("om", &["om", "om.1"], 'l'),
     ("list", &["list"], 'l'),
     ("m.rev(list)", &["list"], 'l'),
     ("flag ? om : obj", &["om", "flag"], 'l'),
@@ -152,6 +155,8 @@ const POSITIONS: &[(&str, &str, char, char, bool)] = &[
     ("for-list-key-this", "<view wx:for=\"{{ @E@ }}\" wx:key=\"*this\">{{ item }}</view>", 'l', '-', true),
     ("for-list-index-only", "<view wx:for=\"{{ @E@ }}\" data-i=\"{{ index }}\"><text>{{ index }}</text></view>", 'l', '-', true),
     ("for-list-keyed-k", "<view wx:for=\"{{ @E@ }}\" wx:key=\"k\" data-i=\"{{ index }}\">{{ item.v }}</view>", 'l', '-', true),
+    ("for-list-item-member", "<view wx:for=\"{{ @E@ }}\"><text>{{ item.v }}</text><text>{{ index }}</text></view>", 'l', '-', true),
+    ("for-list-item-member-keyed", "<view wx:for=\"{{ @E@ }}\" wx:key=\"k\"><text>{{ item.v }}</text><text>{{ index }}</text></view>", 'l', '-', true),
     ("for-list-in-if", "<block wx:if=\"{{ c }}\"><view wx:for=\"{{ @E@ }}\">{{ item }}/{{ c }}</view></block>", 'l', '-', true),
     ("for-of-for", "<block wx:for=\"{{ ll }}\" wx:for-item=\"row\" wx:for-index=\"ri\"><view wx:for=\"{{ row }}\">{{ ri }}/{{ index }}:{{ item }}:{{ @E@ }}</view></block>", 's', '-', true),
     ("tmpl-data-wrap", "<template name=\"t\"><text>{{ o.q.x }}:{{ o.q.y.z }}:{{ o.q.k }}:{{ o.q.z }}:{{ o.p }}</text></template><template is=\"t\" data=\"{{ o: @E@ }}\"/>", 'w', '-', true),
